@@ -11,14 +11,16 @@ from ..report import Ctx
 from .common import ALGORITHM, BUDGET, EVALUATOR, TRACKER
 
 LEVEL_TEXT = (
-    "Static rules: (R1) every SynthesisAlgorithm.search has exactly one loop, its test is 'not self.is_done()' and "
-    "nothing else, the body has no break/return and does not consult the budget again, and is_done delegates to "
-    "budget.is_done(tracker); (R2) for random search, (1+1) and hill climbing every path through the loop body hands "
-    "freshly created individuals to tracker.evaluate (batch of 1, 1, number_of_mutations), so each iteration adds "
-    "evaluations; for GP the body wraps whatever the step yields into a Population that evaluates every individual "
-    "through the tracker (freshness of what a step yields is not decided); (R3) EvaluationBudget is "
-    "'evaluations >= limit' on the evaluator's counter, AnyOf is the disjunction of both members, TargetFitness "
-    "compares the best individual's first component within a tolerance and is false while there is no best. "
+    "(R1) every SynthesisAlgorithm.search has exactly one loop, its test is 'not self.is_done()' and nothing else, the body "
+    "has no break/return and does not consult the budget again, and is_done delegates to budget.is_done(tracker); (R2) "
+    "finite-model interpretation of every search(): with a budget that answers 'not done' three times and then 'done', "
+    "between two consecutive checks a non-empty batch of individuals created since the previous check (from a created / "
+    "mutated genotype, or yielded by the step / initializer for GP and wrapped in a tracked Population) reaches "
+    "tracker.evaluate, none twice, and nothing is evaluated after 'done'; (R3) every SearchBudget.is_done is interpreted "
+    "against a scripted tracker: EvaluationBudget is 'evaluations >= limit' (9, 10, 11, 25 against 10), AnyOf is the "
+    "disjunction with both members consulted on the given tracker (truth table), TargetFitness is false while there is no "
+    "best and compares the best individual's first fitness component with the target within the tolerance (minimised "
+    "problem, where the aggregate differs); (R4) trackers / evaluators / budgets keep no state shared between searches. "
     "Termination for arbitrary user step compositions is not decidable and not claimed."
 )
 
